@@ -35,4 +35,5 @@ PROPS = {
         "rule": "every: Every's delay expression evaluated by Go's time package vs the Lean model on boundary instants (+-1ns), zero/negative/huge durations and seeded random instants; timing: real Tick/Every commands. distinct = distinct (instant, duration) lines; non-trivial = positive duration",
         "trusted": ["Go timers do not fire before their duration has elapsed (Timer.notEarly hypothesis; sampled by the timing scenario)"],
     },
+    "C15": {"modules": [], "streams": [{"name": "reader", "quick": 8000, "thorough": 60000}], "rule": "see C09"},
 }
